@@ -20,6 +20,11 @@ Fixpoint nthN {A} (l : list A) (i : N) : option A :=
   | a :: t => if i =? 0 then Some a else nthN t (N.pred i)
   end.
 
+(** list reversal in linear time (Coq's [rev] is quadratic, which matters for the extracted decoders) *)
+Definition frev {A} (l : list A) : list A := rev_append l [].
+Lemma frev_rev {A} (l : list A) : frev l = rev l.
+Proof. unfold frev. rewrite rev_append_rev, app_nil_r. reflexivity. Qed.
+
 (** split off exactly [n] elements, if there are that many *)
 Definition take {A} (n : N) (s : list A) : option (list A * list A) :=
   if n <=? nlen s then Some (firstn (N.to_nat n) s, skipn (N.to_nat n) s) else None.
